@@ -216,6 +216,7 @@ def run(chk):
     chk.not_covered += ["with-block contexts (modifier_checker) feed the same check_cfg_unitary with ModifiedBlock.flags (C25)", "loops inside with-dagger blocks"]
     qubit_finder(chk)
     decorator_flags(chk)
+    tensor_signature(chk)
     chk.use_engine(e)
 
 
@@ -298,6 +299,64 @@ def qubit_finder(chk):
         n += 1
     chk.record("contain_qubit_ty:shapes-explored", n >= 40, str(n), kind="reachability")
     e.models.pop(f"{Q}:qubit_ty", None)
+    chk.use_engine(e)
+
+
+REPLAY_TENSOR = r'''
+import tempfile, importlib.util, os, sys, shutil
+import guppylang
+guppylang.enable_experimental_features()
+from guppylang_internals.error import GuppyError
+I = INPUT
+NAMES = {0: "", 1: "control=True", 2: "dagger=True", 4: "power=True", 3: "control=True, dagger=True", 5: "control=True, power=True", 6: "dagger=True, power=True", 7: "unitary=True"}
+src = f"""from guppylang import guppy
+from guppylang.std.quantum import qubit
+from guppylang.std.builtins import owned
+@guppy.declare({NAMES[I['a']]})
+def f(q: qubit @owned) -> qubit: ...
+@guppy.declare({NAMES[I['b']]})
+def g(q: qubit @owned) -> qubit: ...
+@guppy({NAMES[I['ctx']]})
+def caller(q1: qubit @owned, q2: qubit @owned) -> tuple[qubit, qubit]:
+    return (f, g)(q1, q2)
+"""
+d = tempfile.mkdtemp(dir=os.environ.get("TMPDIR", "/var/tmp")); fn = os.path.join(d, "replay_c24t.py"); open(fn, "w").write(src)
+spec = importlib.util.spec_from_file_location("replay_c24t", fn); m = importlib.util.module_from_spec(spec); sys.modules["replay_c24t"] = m
+spec.loader.exec_module(m)
+try:
+    m.caller.check(); got = "accepted"
+except GuppyError as ex:
+    got = "rejected:" + type(ex.error).__name__
+shutil.rmtree(d, ignore_errors=True)
+must_reject = (I["ctx"] & I["a"] & I["b"]) != I["ctx"]
+print(json.dumps({"violates": must_reject and got == "accepted", "observed": got, "required": "rejected (a component lacks a flag the context requires)" if must_reject else "either",
+                  "detail": f"context flags {I['ctx']}, tensor of callees with flags {I['a']} and {I['b']}: {got}"}))
+'''
+
+
+def tensor_signature(chk):
+    """function_tensor_signature (tys/ty.py): the type of a tensor `(f, g)`, which visit_TensorCall hands to
+    _check_call.  The flags it carries must be flags EVERY component has — otherwise a context requiring
+    flag F accepts a tensor with a component lacking F (qubits passed to a callee whose flags do not
+    include every flag the context requires)."""
+    e = mk_engine(chk)
+    e.func_info(TYM, "function_tensor_signature")
+    m = e.module(TYM)
+    for a, b in itertools.product(range(8), repeat=2):
+        def t(it, a=a, b=b):
+            UF = it.lookup_global(m, "UnitaryFlags")
+            FTy = it.lookup_global(m, "FunctionType")
+            NoneT = it.lookup_global(m, "NoneType")
+            fs = [it.call(FTy, [[], it.call(NoneT, [], {})], {"unitary_flags": FlagVal(UF, v)}) for v in (a, b)]
+            return it.call(it.lookup_global(m, "function_tensor_signature"), [fs], {})
+
+        def post(p, a=a, b=b):
+            if p.kind != "return":
+                return z3.BoolVal(False)
+            fl = p.value.fields["unitary_flags"]
+            return z3.BoolVal(isinstance(fl, FlagVal) and (fl.value & ~(a & b) & 7) == 0)
+        chk.prove_paths(f"function_tensor_signature[{a},{b}]:carries-only-flags-every-component-has", e.explore(t), post, func=f"{TYM}:function_tensor_signature",
+                        replay=lambda m_, a=a, b=b: {"script": REPLAY_TENSOR, "input": {"a": a, "b": b, "ctx": (a | b) & ~(a & b) & 7 or 7}})
     chk.use_engine(e)
 
 
